@@ -80,9 +80,6 @@ func (r *region[R]) open(cfg GateConfig[R]) (g *Gate[R], t Transfer, err error) 
 		position:  r.counter,
 	}
 
-	// Expand the time range to include the new gate's time range.
-	r.timeRange = r.timeRange.Union(cfg.TimeRange)
-
 	// If no one is in control or this gate has a higher authority, take control.
 	if r.curr == nil || g.authority > r.curr.authority {
 		if r.curr != nil {
@@ -100,6 +97,9 @@ func (r *region[R]) open(cfg GateConfig[R]) (g *Gate[R], t Transfer, err error) 
 		g = nil
 		return
 	}
+	// Expand the time range to include the new gate's time range (only once the gate is
+	// actually admitted: a refused gate must leave the region as it was).
+	r.timeRange = r.timeRange.Union(cfg.TimeRange)
 	r.gates.Add(g)
 	r.counter++
 	return g, t, nil
